@@ -42,26 +42,39 @@ def run_case(spec):
                 if kind in ('circ', 'bad-exon'):
                     n = rng.randint(1, len(tx.exons))
                     i0 = rng.randint(0, len(tx.exons) - n)
-                    frags = list(tx.exons[i0:i0 + n])
-                    if kind == 'bad-exon':
-                        k = rng.randrange(len(frags))
-                        s, e = frags[k]
-                        if e - s < 4:
-                            continue
-                        frags[k] = (s + 1, e) if rng.random() < 0.5 else (s, e - 1)     # not an annotated exon
-                    blocks = sorted(G(f) for f in frags)
-                    start, end = blocks[0][0], blocks[-1][1]
-                    sizes = ','.join(str(b - a) for a, b in blocks)
-                    offs = ','.join(str(a - start) for a, b in blocks)
-                    idx = ','.join(str(i0 + 1 + j) for j in range(n))
-                    row = [gene.chrom, start, end, f'circular_RNA/{reads}', 0, st, start, start, '0,0,0', n, sizes, offs, reads, 'circRNA', gene.name, tx.id,
-                           idx, f'{gene.chrom}:1-2|{gene.chrom}:3-4']
-                    want = None
-                    if passes and kind == 'circ':
-                        seq = ''.join(chrom[a:b] for a, b in blocks)
-                        want = {'frags': sorted(frags), 'intron': [], 'seq': seq if gene.strand == 1 else revcomp(seq),
-                                'id': f'CIRC-{tx.id}-{frags[0][0]}:{frags[-1][1]}'}
-                    expect.append((tx, kind, passes, want, (start, end)))
+                    variants = [(list(tx.exons[i0:i0 + n]), list(range(i0, i0 + n)))]
+                    if kind == 'circ' and n >= 3 and rng.random() < 0.4:
+                        # the same back-splice junction with interior exons skipped: several rows of one isoform then share the
+                        # record id CIRC-<tx>-<start>:<end> but denote different circles; each row must get its own record
+                        drop = set(rng.sample(range(1, n - 1), rng.randint(1, n - 2)))
+                        skipped = ([f for j, f in enumerate(variants[0][0]) if j not in drop],
+                                   [x for j, x in enumerate(variants[0][1]) if j not in drop])
+                        variants = [skipped] if rng.random() < 0.4 else [variants[0], skipped]
+                        counters['circ_rows_with_skipped_interior_exons'] = counters.get('circ_rows_with_skipped_interior_exons', 0) + 1
+                    for frags, kept_idx in variants:
+                        if kind == 'bad-exon':
+                            k = rng.randrange(len(frags))
+                            s, e = frags[k]
+                            if e - s < 4:
+                                continue
+                            frags[k] = (s + 1, e) if rng.random() < 0.5 else (s, e - 1)     # not an annotated exon
+                        blocks = sorted(G(f) for f in frags)
+                        start, end = blocks[0][0], blocks[-1][1]
+                        sizes = ','.join(str(b - a) for a, b in blocks)
+                        offs = ','.join(str(a - start) for a, b in blocks)
+                        idx = ','.join(str(x + 1) for x in kept_idx)
+                        row = [gene.chrom, start, end, f'circular_RNA/{reads}', 0, st, start, start, '0,0,0', len(frags), sizes, offs, reads,
+                               'circRNA', gene.name, tx.id, idx, f'{gene.chrom}:1-2|{gene.chrom}:3-4']
+                        want = None
+                        if passes and kind == 'circ':
+                            seq = ''.join(chrom[a:b] for a, b in blocks)
+                            want = {'frags': sorted(frags), 'intron': [], 'seq': seq if gene.strand == 1 else revcomp(seq),
+                                    'id': f'CIRC-{tx.id}-{frags[0][0]}:{frags[-1][1]}'}
+                        expect.append((tx, kind, passes, want, (start, end)))
+                        if ce3:
+                            row += [fpb, 1.0, score]
+                        rows.append('\t'.join(str(x) for x in row))
+                    continue
                 else:
                     if len(tx.exons) < 2:
                         continue
